@@ -29,6 +29,18 @@ import (
 )
 
 var worker = flag.Bool("vx-worker", false, "internal")
+var racePass = flag.Bool("race-pass", false, "internal: child mode of the -race build (no scheduler rewrite): runs every program free and reports the races")
+var freeProg = flag.String("free-prog", "", "internal: run one program free-running")
+var freeRuns = flag.Int("free-runs", 1, "internal")
+
+// Waiting times of a program. Under the scheduler they are virtual; the free-running pass
+// (real time) shortens them.
+var (
+	reapAfter   = 60 * time.Second
+	hsTimeout   = 5 * time.Second
+	acceptWait  = 6 * time.Second
+	setupAccept = 5 * time.Second
+)
 
 // A program. Client threads and handle threads are op strings:
 //
@@ -104,7 +116,7 @@ func scenario(arg string) *vx.Scenario {
 		sa := &net.UDPAddr{IP: net.IPv4(10, 0, 0, 1), Port: 77}
 		ca := &net.UDPAddr{IP: net.IPv4(10, 0, 0, 2), Port: 4000}
 		scfg := std.ServerConfig(p.Hidden)
-		scfg.HandshakeTimeout = 5 * time.Second
+		scfg.HandshakeTimeout = hsTimeout
 		srv, err := transport.NewServer(nw.Listen(sa), scfg)
 		if err != nil {
 			vrt.Fail("NewServer: %v", err)
@@ -114,7 +126,7 @@ func scenario(arg string) *vx.Scenario {
 		bg.Add(1)
 		vrt.Go(func() { defer bg.Done(); srv.Serve() })
 		ccfg := std.ClientConfig(p.Hidden)
-		ccfg.HSTimeout = 5 * time.Second
+		ccfg.HSTimeout = hsTimeout
 		cl := transport.NewClient(nw.Dial(ca, sa), sa, ccfg)
 		var h *transport.Handle
 		if p.Pre != "" {
@@ -122,7 +134,7 @@ func scenario(arg string) *vx.Scenario {
 				vrt.Fail("set-up handshake failed: %v", err)
 				return
 			}
-			h, err = srv.AcceptTimeout(5 * time.Second)
+			h, err = srv.AcceptTimeout(setupAccept)
 			if err != nil {
 				vrt.Fail("set-up accept failed: %v", err)
 				return
@@ -195,7 +207,7 @@ func scenario(arg string) *vx.Scenario {
 		bg.Add(1)
 		vrt.Go(func() {
 			defer bg.Done()
-			vrt.Sleep(60 * time.Second)
+			vrt.Sleep(reapAfter)
 			cl.Close()
 			srv.Close()
 		})
@@ -212,7 +224,7 @@ func scenario(arg string) *vx.Scenario {
 				hh := h
 				if hh == nil {
 					var err error
-					hh, err = srv.AcceptTimeout(6 * time.Second)
+					hh, err = srv.AcceptTimeout(acceptWait)
 					if err != nil {
 						note("H", 0, 'a', errName(err))
 						return
@@ -314,12 +326,68 @@ func programs(thorough bool) (all, core []prog) {
 	return
 }
 
+// racePassMain is the child mode of the -race build of this harness: transport and common are
+// the repository's packages as they are (no scheduler rewrite), every program runs free in a
+// subprocess of its own with real goroutines and real (shortened) waiting times, and every
+// report of the race detector whose two accesses are both in repository code is a violation.
+func racePassMain() {
+	r := vk.New("C17", "model_checking")
+	runs := 2
+	if r.Thorough() {
+		runs = 12
+	}
+	all, _ := programs(true)
+	self, _ := os.Executable()
+	var rmu sync.Mutex
+	racy := map[string]int{}
+	r.Parallel(len(all), func(i int) {
+		p := all[i]
+		reps, timedOut, err := vk.RaceExec(self, []string{"-free-prog", p.String(), "-free-runs", fmt.Sprint(runs)}, "hop.computer/hop", 3*time.Minute)
+		rmu.Lock()
+		defer rmu.Unlock()
+		if timedOut {
+			r.Cap("free-running program did not end within 3 minutes (not an oracle here): " + p.String())
+		} else if err != nil {
+			r.EngineError("free-running program %s: %v", p, err)
+		}
+		for _, rr := range reps {
+			if !rr.InRepo("hop.computer/hop") {
+				r.AddInt("race_reports_outside_repository_code", 1)
+				continue
+			}
+			racy[rr.Key()]++
+			r.Violation("race:"+rr.Key(), fmt.Sprintf("data race between %s and %s | program: %s (free-running -race pass, %d runs)", rr.A, rr.B, p, runs), map[string]any{"scenario": "race-transport", "arg": p.String(), "report": rr.Text})
+		}
+	})
+	r.EvalN(int64(len(all) * runs))
+	r.Set("race_pass_programs", len(all))
+	r.Set("race_pass_runs_per_program", runs)
+	r.Set("race_pass_exhaustive", false)
+	r.Distinct("race-pass-transport")
+	r.SetRule(fmt.Sprintf("free-running -race pass: the %d transport programs (same bodies as the scheduler-controlled part), packages transport and common exactly as compiled from the repository with the race detector, real goroutines over the in-memory network, waiting times shortened (reaper 0.7 s, handshake timeout 0.4 s), %d runs each in a subprocess per program; every detector report whose two conflicting accesses are both in repository code is a violation. Supplementary to the scheduler-controlled exploration (which cannot see unsynchronised accesses); observes the schedules the runtime produces, not exhaustive.", len(all), runs))
+	r.Finish()
+}
+
 func main() {
 	flag.Parse()
 	logrus.SetOutput(io.Discard)
 	vx.Registry["transport"] = scenario
 	if *worker {
 		vx.WorkerMain()
+		return
+	}
+	if *freeProg != "" {
+		if vrt.Active() {
+			panic("free run inside the scheduler")
+		}
+		reapAfter, hsTimeout, acceptWait, setupAccept = 700*time.Millisecond, 400*time.Millisecond, 500*time.Millisecond, 2*time.Second
+		for k := 0; k < *freeRuns; k++ {
+			scenario(*freeProg).Run()
+		}
+		return
+	}
+	if *racePass {
+		racePassMain()
 		return
 	}
 	r := vk.New("C17", "model_checking")
